@@ -1,9 +1,218 @@
 import Pose.Wire
 import Pose.Driver.Lie
-/-! Driver ops for C07. -/
-namespace PP.Driver
-open PP Wire
+import Pose.Model.GNStep
+/-!
+# Driver ops for C07 (one GN / LM step)
 
-def opsC07 : List (String × Handler) := []
+Every op runs the definitions of `Pose/Model/GNStep.lean` at `α = BigF`.  Intermediate matrices are tabulated
+here (the model itself is written with index functions), which changes no value.
+
+    c07.hcat   rows P (n_j rg_j)×P  data of every block…                -> rows × Σ(kept n) matrix
+    c07.pick   ncorr nres                                               -> corrector index per residual | err
+    c07.wdiag  K (rrank rshape… wrank wshape…)×K  wdata…                -> rows cols entries… | err raise
+    c07.gn     n K rows_1 … rows_K hasW [(rrank rshape… wrank wshape…)×K]  (R_i J_i)×K  [wdata…]
+                                                                        -> m, A (m×n), b (m) | err raise
+    c07.lm     n K rows_1 … rows_K hasW [(…)×K] ntr  lo hi lam_1 … lam_ntr (R_i J_i)×K [wdata…]
+                                                                        -> b (n), A_1 … A_ntr (n×n each) | err raise
+    c07.update P (kind numel rg)×P lenD  eps  pdata… D…                 -> new data of all parameters | err split
+-/
+namespace PP.Driver
+open PP Wire GNStep
+
+abbrev Pr (β : Type) := List String → Except String (β × List String)
+
+def pNat : Pr Nat
+  | t :: ts => do let n ← nat t; return (n, ts)
+  | [] => throw "arity"
+
+def pNats : Nat → Pr (List Nat)
+  | 0, ts => return ([], ts)
+  | n+1, ts => do
+    let (x, ts) ← pNat ts
+    let (xs, ts) ← pNats n ts
+    return (x :: xs, ts)
+
+def pNums (n : Nat) : Pr (Array B) := fun ts => do
+  if ts.length < n then throw "arity"
+  let xs ← nums (ts.take n)
+  return (xs.toArray, ts.drop n)
+
+def fn1 (a : Array B) : Nat → B := fun i => a.getD i BigF.zero
+/-- tabulation: the arrays are *values* (computed once, Lean is strict); `fn1` / `fn2` read them back -/
+def tab1 (n : Nat) (f : Nat → B) : Array B := Array.ofFn (n := n) fun i => f i.val
+def tab2 (n m : Nat) (f : Nat → Nat → B) : Array (Array B) :=
+  Array.ofFn (n := n) fun i => Array.ofFn (n := m) fun j => f i.val j.val
+def fn2 (a : Array (Array B)) : Nat → Nat → B := fun i j => (a.getD i #[]).getD j BigF.zero
+def flat2 (n m : Nat) (f : Nat → Nat → B) : List B :=
+  (List.range n).flatMap fun i => (List.range m).map fun j => f i j
+
+/-- `(rrank rshape… wrank wshape…)` -/
+def pShapes : Pr (List Nat × List Nat) := fun ts => do
+  let (rr, ts) ← pNat ts
+  let (rs, ts) ← pNats rr ts
+  let (wr, ts) ← pNat ts
+  let (ws, ts) ← pNats wr ts
+  return ((rs, ws), ts)
+
+def pMany {β : Type} (p : Pr β) : Nat → Pr (List β)
+  | 0, ts => return ([], ts)
+  | n+1, ts => do
+    let (x, ts) ← p ts
+    let (xs, ts) ← pMany p n ts
+    return (x :: xs, ts)
+
+/-- residual data `(R_i, J_i)` for row counts `rows`, `n` columns -/
+def pRes (n : Nat) : List Nat → Pr (List (Res B))
+  | [], ts => return ([], ts)
+  | r :: rs, ts => do
+    let (Rv, ts) ← pNums r ts
+    let (Jv, ts) ← pNums (r * n) ts
+    let (rest, ts) ← pRes n rs ts
+    return (⟨r, fn1 Rv, fun i j => Jv.getD (i * n + j) BigF.zero⟩ :: rest, ts)
+
+def pWData : List (List Nat × List Nat) → Pr (List (List Nat × (Nat → B)))
+  | [], ts => return ([], ts)
+  | (_, ws) :: rest, ts => do
+    let (d, ts) ← pNums (GNStep.prod ws) ts
+    let (out, ts) ← pWData rest ts
+    return ((ws, fn1 d) :: out, ts)
+
+/-- common header of `c07.gn` / `c07.lm` -/
+structure Hdr where
+  n : Nat
+  rows : List Nat
+  shapes : Option (List (List Nat × List Nat))
+
+def pHdr : Pr Hdr := fun ts => do
+  let (n, ts) ← pNat ts
+  let (K, ts) ← pNat ts
+  let (rows, ts) ← pNats K ts
+  let (hasW, ts) ← pNat ts
+  if hasW == 0 then return (⟨n, rows, none⟩, ts)
+  let (Kw, ts) ← pNat ts
+  let (sh, ts) ← pMany pShapes Kw ts
+  return (⟨n, rows, some sh⟩, ts)
+
+def kindOf (c : Nat) : Except String Kind :=
+  match c with
+  | 0 => .ok .euclid
+  | 1 => .ok (.alg .SO3) | 2 => .ok (.alg .SE3) | 3 => .ok (.alg .RxSO3) | 4 => .ok (.alg .Sim3)
+  | 5 => .ok (.grp .SO3) | 6 => .ok (.grp .SE3) | 7 => .ok (.grp .RxSO3) | 8 => .ok (.grp .Sim3)
+  | _ => .error "bad-kind"
+
+def pParamSpec : Pr (Kind × Nat × Bool) := fun ts => do
+  let (c, ts) ← pNat ts
+  let (n, ts) ← pNat ts
+  let (rg, ts) ← pNat ts
+  let kd ← kindOf c
+  return ((kd, n, rg != 0), ts)
+
+def pParamData : List (Kind × Nat × Bool) → Pr (List (Param B))
+  | [], ts => return ([], ts)
+  | (kd, n, rg) :: rest, ts => do
+    let (d, ts) ← pNums n ts
+    let (out, ts) ← pParamData rest ts
+    return (⟨kd, n, rg, fn1 d⟩ :: out, ts)
+
+def idC : Res B → Res B := id
+
+def opsC07 : List (String × Handler) := [
+  ("c07.hcat", fun ts => do
+      let (rows, ts) ← pNat ts
+      let (P, ts) ← pNat ts
+      let (flat, ts) ← pNats (2 * P) ts
+      let rec pairs : List Nat → List (Nat × Bool)
+        | n :: g :: rest => (n, g != 0) :: pairs rest
+        | _ => []
+      let ps := pairs flat
+      let ns := ps.map (·.1)
+      let rec blocks : List Nat → List String → Except String (List (Array B))
+        | [], ts => if ts.isEmpty then return [] else throw "arity"
+        | n :: ns, ts => do
+          let (d, ts) ← pNums (rows * n) ts
+          let rest ← blocks ns ts
+          return d :: rest
+      let bl ← blocks ns ts
+      let ba := bl.toArray
+      let nsA := ns.toArray
+      let J := flattenRowJac ps fun j r o => (ba.getD j #[]).getD (r * nsA.getD j 0 + o) BigF.zero
+      return fmt (flat2 rows (GNStep.total (keepNumels ps)) J)),
+  ("c07.pick", fun ts => do
+      match ts with
+      | [a, b] =>
+        let ncorr ← nat a; let nres ← nat b
+        let cs := List.range ncorr
+        let picks := (List.range nres).map fun i => pickCorrector cs i
+        if picks.all Option.isSome then return fmtNats (picks.filterMap id) else throw "raise"
+      | _ => throw "arity"),
+  ("c07.wdiag", fun ts => do
+      let (K, ts) ← pNat ts
+      let (sh, ts) ← pMany pShapes K ts
+      let (wd, ts) ← pWData sh ts
+      if !ts.isEmpty then throw "arity"
+      match allBlocks (sh.map (·.1)) wd with
+      | none => throw "raise"
+      | some bs =>
+        let r := wRows bs; let c := wCols bs
+        return s!"{r} {c} " ++ fmt (flat2 r c (blockDiag bs))),
+  ("c07.gn", fun ts => do
+      let (h, ts) ← pHdr ts
+      let (rs, ts) ← pRes h.n h.rows ts
+      let (wd, ts) ← match h.shapes with
+        | none => pure (none, ts)
+        | some sh => do let (w, ts) ← pWData sh ts; pure (some w, ts)
+      if !ts.isEmpty then throw "arity"
+      let rshapes := match h.shapes with | none => [] | some sh => sh.map (·.1)
+      -- tabulate the block-diagonal weight once (the model's `weightMat` is re-run inside `gnSystem` on the
+      -- tabulated data: same values)
+      match gnSystem h.n [idC] rs rshapes wd with
+      | none => throw "raise"
+      | some S =>
+        return s!"{S.m} " ++ fmt (flat2 S.m S.n S.A ++ (List.range S.m).map S.b)),
+  ("c07.lm", fun ts => do
+      let (h, ts) ← pHdr ts
+      let (ntr, ts) ← pNat ts
+      let (lohi, ts) ← pNums 2 ts
+      let (lams, ts) ← pNums ntr ts
+      let (rs, ts) ← pRes h.n h.rows ts
+      let (wd, ts) ← match h.shapes with
+        | none => pure (none, ts)
+        | some sh => do let (w, ts) ← pWData sh ts; pure (some w, ts)
+      if !ts.isEmpty then throw "arity"
+      let rshapes := match h.shapes with | none => [] | some sh => sh.map (·.1)
+      let lo := lohi.getD 0 BigF.zero; let hi := lohi.getD 1 BigF.zero
+      -- same pipeline as `lmSystem`, with the intermediate matrices tabulated
+      match correctAll [idC] rs with
+      | none => throw "raise"
+      | some rs' =>
+        let m := totalRows rs'
+        match weightMat rshapes wd m with
+        | none => throw "raise"
+        | some W =>
+          let Wt := W.map (tab2 m m)
+          let W := Wt.map fn2
+          let Jt := tab2 m h.n (catJ rs')
+          let J := fn2 Jt
+          let Rt := tab1 m (catR rs')
+          let R := fn1 Rt
+          let JTt := tab2 h.n m (lmJT m W J)
+          let JT := fn2 JTt
+          let A0t := tab2 h.n h.n (clampDiag lo hi (lmNormal m JT J))
+          let A0 := fn2 A0t
+          let b := lmb m JT R
+          let trials := (List.range ntr).map fun t => lmAk A0 (lams.toList.take (t + 1))
+          return fmt ((List.range h.n).map b ++ trials.flatMap (flat2 h.n h.n))),
+  ("c07.update", fun ts => do
+      let (P, ts) ← pNat ts
+      let (specs, ts) ← pMany pParamSpec P ts
+      let (lenD, ts) ← pNat ts
+      let (e, ts) ← pNums 1 ts
+      let (ps, ts) ← pParamData specs ts
+      let (D, ts) ← pNums lenD ts
+      if !ts.isEmpty then throw "arity"
+      match stepUpdate (e.getD 0 BigF.zero) ps lenD (fn1 D) with
+      | none => throw "split"
+      | some out => return fmt (out.flatMap fun p => (List.range p.numel).map p.data))
+]
 
 end PP.Driver
